@@ -577,6 +577,7 @@ doTbl(char **tok, int ntok) {
 #include "lvh_dump.h"
 #include "lvh_meta.h"
 #include "lvh_log.h"
+#include "lvh_hyph.h"
 
 int
 main(int argc, char **argv) {
@@ -702,6 +703,7 @@ main(int argc, char **argv) {
 		} else if (doDumpOp(tok, ntok)) {
 		} else if (doMetaOp(tok, ntok)) {
 		} else if (doLogOp(tok, ntok)) {
+		} else if (doHyphOp(tok, ntok)) {
 		} else {
 			printf("BADOP\n");
 		}
